@@ -69,6 +69,12 @@ def kinds_for(schema, fdef, natural=None):
             for label, bad in bads[:2]:
                 for k in (4, 5):
                     out.append(("%s-at-%d-of-6" % (label, k), "value", six[:k] + [bad] + six[k + 1:]))
+        # a long list (beyond any plausible batch size of an implementation): failing item near the end of 150 leaf items
+        if item_core[0] == "named" and schema.type(item_core[1]).kind in ("SCALAR", "ENUM"):
+            filler = {"Int": 1, "Float": 1.5, "String": "s", "ID": "i", "Boolean": True, "Tag": "t"}.get(
+                item_core[1], schema.type(item_core[1]).values[0].name if schema.type(item_core[1]).kind == "ENUM" else "x")
+            long = ((base or [filler]) * 150)[:150]
+            out.append(("item-null-at-137-of-150", "value", long[:137] + [None] + long[138:]))
     else:
         td = schema.type(core[1])
         if td.kind in ("SCALAR", "ENUM"):
